@@ -263,4 +263,43 @@ def GTerm.canonReflected (inv : Bool) (g : GTerm) : GTerm × Bool :=
   | some false => ({ g with useSf := true, reN := if neg then -g.reN else g.reN, imN := if neg then -g.imN else g.imN }, false)
   | none => ({ g with useSf := true }, neg)
 
+/-! ### structural table checks (decidable; evaluated by `decide` in Props/C12 and by the driver) -/
+
+/-- the inverse-direction value of a table branch is the reflection f ↦ −f of its forward value -/
+def entryInverseOk (e : GEntry) : Bool := e.terms.all fun g => g.canon true == g.canonReflected false
+
+/-- the forward value of a table branch is the spec's formal pair of the atom it matches (order-insensitive) -/
+def entryForwardOk (e : GEntry) : Bool :=
+  match pairG e.kind with
+  | none => false
+  | some l =>
+    let c := e.terms.map (fun g => (g.canon false).1)
+    let d := l.map (fun g => (g.canon false).1)
+    c.length == d.length && c.all (fun g => d.contains g) && d.all (fun g => c.contains g)
+
+/-- a conversion row substitutes v_src = (k_src/k_dst)·v_dst  (dst = none: v_src = k_src·f before the inverse transform) -/
+def convOk (c : GConv) : Bool :=
+  let s := c.src.expo
+  let d : Int × Int × Int := match c.dst with | some e => e.expo | none => (0, 0, 0)
+  if c.returnsSelf then c.dst == some c.src
+  else c.e2 == s.1 - d.1 && c.epi == s.2.1 - d.2.1 && c.edt == s.2.2 - d.2.2
+
+/-- location and weight of  c·δ^{(n)}(a x + b) = c/(|a| aⁿ) · δ^{(n)}(x + b/a) -/
+def deltaLoc (t : Term) : Rat := -t.b / t.a
+def deltaWeight (n : Nat) (t : Term) : CQ := CQ.smul (1 / (rabs t.a * t.a ^ n)) t.c
+
+/-- value at frequency `f` of the rational part (the `cpole` terms without phase factors) of a spectrum -/
+def Term.ratValue (pi f : Rat) (t : Term) : CQ :=
+  match t.k with
+  | .cpole n al => t.c * ((al + ⟨0, 2 * pi * (t.a * f + t.b)⟩).npow n).inv
+  | _ => 0
+def ratValue (pi f : Rat) (x : E) : CQ := (x.map (Term.ratValue pi f)).foldr (· + ·) 0
+
+/-- sign-canonical form of a term: the sign of the argument moved out of an even / odd atom -/
+def canonT (t : Term) : Term :=
+  match t.k.parity with
+  | some true => { t with a := rabs t.a, b := rsgn t.a * t.b }
+  | some false => { t with c := CQ.smul (rsgn t.a) t.c, a := rabs t.a, b := rsgn t.a * t.b }
+  | none => t
+
 end Lcapy.Fourier
